@@ -111,6 +111,14 @@ def run(ctx, mode):
         simr, nsr = schedules_from_simulation(ctx, (3000 if mode == "C11" else 500) if quick else 30000, cfg="ClientSimRto.cfg")
         stats["ClientSimRto.cfg"] = {"behaviours": len(simr), "states_visited": nsr}
         scheds += simr
+        # a caller that uses the transaction id of the other caller's transaction: an indication, or a Start / Do
+        # that is refused because the id is registered (ClientSimDup.cfg: IdOf maps both callers to one id)
+        simd, nsd = schedules_from_simulation(ctx, 3000 if quick else 30000, cfg="ClientSimDup.cfg")
+        for s in simd:
+            s["sameid"] = True
+        stats["ClientSimDup.cfg"] = {"behaviours": len(simd), "states_visited": nsd,
+                                     "with_refused_duplicate": sum(1 for s in simd if any(st.get("dup") for st in s["steps"]))}
+        scheds += simd
         sizes = [20, 20, 20, 1500, 1501, 2048, 2049, 4096, 65535]
         rnd = random.Random(ctx.seed)
         for i, s in enumerate(scheds):
